@@ -97,7 +97,7 @@ func c13Cases(tier string, seed uint64, flavor string) []lib.Case {
 	comps := lib.AllComps()
 	nseq := 12
 	if tier == "thorough" {
-		nseq = 150
+		nseq = 300
 	}
 	if flavor == "asan" {
 		comps = nil
